@@ -62,6 +62,7 @@ impl Callbacks for Cb {
         rustc_middle::ty::print::with_no_trimmed_paths!({
             root.put("adts", items::dump_adts(tcx));
             root.put("statics", items::dump_statics(tcx));
+            root.put("modules", items::dump_modules(tcx));
             root.put("impls", items::dump_impls(tcx));
             root.put("traits", items::dump_trait_queries(tcx));
             let (bodies, unsafe_blocks) = thir_dump::dump_bodies(tcx);
